@@ -30,6 +30,7 @@ int verif_vfs_event(void);                                   // a persistence ev
 int verif_vfs_frozen(void);
 void verif_expect_fatal(int on);
 // what the code under test writes to stdout from now on is captured (natively: fd 1 is redirected to a temporary file)
+void verif_set_tty(int on, int cols);                        // stdout pretends to be a terminal `cols` wide (0: width unknown): isatty(1), ioctl(TIOCGWINSZ)
 void verif_stdout_capture(void);
 long verif_stdout_len(void);
 long verif_stdout_copy(char* buf, long cap);
